@@ -30,6 +30,71 @@ theorem quboReply_feas (d : MPData) (c' : List Rat) (Q' : Coo) (suff : Rat) (rho
   · rfl
   · rfl
 
+/-! ## graph-level mutators -/
+
+/-- an `add_arc` that does not return `True` leaves the graph as it was -/
+theorem addArcWith_fst (g : Graph) (o d : String) (t c : Rat) (sr : Nat → Bool)
+    (h : (addArcWith g o d t c sr).2 ≠ .ok (some true)) : (addArcWith g o d t c sr).1 = g := by
+  revert h
+  unfold addArcWith
+  cases g.indexOf? o with
+  | none => intro _; rfl
+  | some i =>
+    cases g.indexOf? d with
+    | none => intro _; rfl
+    | some j =>
+      simp only
+      split_ifs <;> intro h <;> first | rfl | exact absurd rfl h
+
+theorem gstep_addArc_fst (fl : Flavor) (g : Graph) (o d : String) (t c : Rat)
+    (h : (gstep fl g (.addArc o d t c)).2 ≠ .ok (some true)) : (gstep fl g (.addArc o d t c)).1 = g := by
+  cases fl with
+  | base => exact addArcWith_fst g o d t c _ h
+  | seq strict => exact addArcWith_fst g o d t c _ h
+
+theorem gstep_error_fst (fl : Flavor) (g : Graph) (op : GOp) (e : Err) (h : (gstep fl g op).2 = .error e) :
+    (gstep fl g op).1 = g := by
+  cases op with
+  | addArc o d t c => exact gstep_addArc_fst fl g o d t c (by rw [h]; simp)
+  | addNode nm dem lo hi =>
+    revert h
+    show (addNodeStep g nm dem lo hi).2 = _ → (addNodeStep g nm dem lo hi).1 = g
+    unfold addNodeStep
+    split_ifs
+    · intro _; rfl
+    · intro _; rfl
+    · intro h; simp at h
+  | setDepot nm =>
+    cases fl with
+    | base =>
+      revert h
+      show (setDepotBase g nm).2 = _ → (setDepotBase g nm).1 = g
+      unfold setDepotBase
+      cases g.indexOf? nm with
+      | none => intro _; rfl
+      | some d =>
+        simp only
+        split_ifs
+        · intro _; rfl
+        · intro h; simp at h
+    | seq strict =>
+      revert h
+      unfold gstep
+      simp only
+      split
+      · intro _; rfl
+      · split
+        · intro _; rfl
+        · intro h; simp at h
+
+/-- a mutator that raises leaves the problem data untouched -/
+theorem gmut_error_fst (fl : Flavor) (g : Graph) (m : GMut) (e : Err) (h : (gmut fl g m).2 = .error e) :
+    (gmut fl g m).1 = g := by
+  cases m with
+  | op op => exact gstep_error_fst fl g op e h
+  | cap c => simp [gmut] at h
+  | init l => simp [gmut] at h
+
 /-! ## arc object -/
 
 /-- flag set ⇒ the cached value is the value computed afresh from the current instance -/
@@ -224,10 +289,56 @@ theorem getQubo_spec {o : ArcObj} (hc : o.Coherent) (feas : Bool) (rho? : Option
     refine ⟨hq.trans hq2, ?_⟩
     rw [data_eta]
 
+/-! ### the hook and the mutators -/
+
+/-- all three flags unset -/
+def Unset (o : ArcObj) : Prop :=
+  o.variablesEnumerated = false ∧ o.objectiveBuilt = false ∧ o.constraintsBuilt = false
+
+theorem Unset.coherent {o : ArcObj} (h : Unset o) : o.Coherent := coherent_of_flags h.1 h.2.1 h.2.2
+
+theorem unset_problemChanged (o : ArcObj) : Unset o.problemChanged := ⟨rfl, rfl, rfl⟩
+
+/-- a base-class mutator: flags unset afterwards (also when it raises), the stored solution is kept, the problem
+    data are those of the graph-level call -/
+theorem mutate_spec (o : ArcObj) (m : GMut) :
+    Unset (o.mutate m).1 ∧ (o.mutate m).1.sol = o.sol ∧
+    (o.mutate m).1.inst = { o.inst with g := (gmut .base o.inst.g m).1 } ∧
+    (o.mutate m).2 = (gmut .base o.inst.g m).2 :=
+  ⟨⟨rfl, rfl, rfl⟩, rfl, rfl, rfl⟩
+
+/-- a mutator that raises has reset the flags and left the problem data and the stored solution alone -/
+theorem mutate_raised (o : ArcObj) (m : GMut) (e : Err) (h : (o.mutate m).2 = .error e) :
+    Unset (o.mutate m).1 ∧ (o.mutate m).1.inst = o.inst ∧ (o.mutate m).1.sol = o.sol := by
+  refine ⟨⟨rfl, rfl, rfl⟩, ?_, rfl⟩
+  show ({ o.inst with g := (gmut .base o.inst.g m).1 } : ArcInst) = o.inst
+  rw [gmut_error_fst .base o.inst.g m e h]
+
+theorem addTimePoints_spec (o : ArcObj) (pts : List Rat) :
+    Unset (o.addTimePoints pts) ∧ (o.addTimePoints pts).sol = o.sol ∧
+    (o.addTimePoints pts).inst = o.inst.addTimePoints pts :=
+  ⟨⟨rfl, rfl, rfl⟩, rfl, rfl⟩
+
+/-- `self.add_arc(...)` inside the heuristic -/
+theorem mutate_addArc (o : ArcObj) (og d : String) (t c : Rat) :
+    (o.mutate (.op (.addArc og d t c))).2 = (gstep .base o.inst.g (.addArc og d t c)).2 ∧
+    (o.mutate (.op (.addArc og d t c))).1.sol = o.sol ∧
+    (o.mutate (.op (.addArc og d t c))).1.inst = { o.inst with g := (gstep .base o.inst.g (.addArc og d t c)).1 } ∧
+    ((gstep .base o.inst.g (.addArc og d t c)).2 ≠ .ok (some true) →
+      (o.mutate (.op (.addArc og d t c))).1.inst = o.inst) := by
+  refine ⟨rfl, rfl, rfl, fun h => ?_⟩
+  show ({ o.inst with g := (gstep .base o.inst.g (.addArc og d t c)).1 } : ArcInst) = o.inst
+  rw [gstep_addArc_fst _ _ _ _ _ _ h]
+
 /-! ### the heuristic: projection to the instance level -/
 
 /-- a flag action: touches neither the problem data nor the stored solution -/
 def FlagOnly (f : ArcObj → ArcObj) : Prop := ∀ o, (f o).inst = o.inst ∧ (f o).sol = o.sol
+
+/-- a flag action that cannot break coherence (for instance: one that only clears flags) -/
+structure Harmless (f : ArcObj → ArcObj) : Prop where
+  flagOnly : FlagOnly f
+  coh : ∀ o, o.Coherent → (f o).Coherent
 
 theorem checkExit_abs {exit : ArcObj → ArcObj} (hx : FlagOnly exit) (o : ArcObj) (n : Nat) (cost : Rat) :
     (o.checkAndAddExitArc exit n cost).1.inst = (arcExitI o.inst n cost).1 ∧
@@ -236,9 +347,19 @@ theorem checkExit_abs {exit : ArcObj → ArcObj} (hx : FlagOnly exit) (o : ArcOb
   unfold checkAndAddExitArc arcExitI
   split_ifs with h
   · exact ⟨rfl, rfl, rfl⟩
-  · generalize gstep .base o.inst.g _ = a
-    obtain ⟨g', r⟩ := a
-    rcases r with e | (_ | (_ | _)) <;> simp [(hx _).1, (hx _).2]
+  · obtain ⟨m1, m2, m3, m4⟩ := mutate_addArc o (nameOf o.inst.g n) (nameOf o.inst.g 0) 0 cost
+    generalize o.mutate _ = a at m1 m2 m3 m4 ⊢
+    generalize gstep .base o.inst.g _ = G at m1 m3 m4 ⊢
+    simp only
+    rw [m1]
+    clear m1
+    obtain ⟨g', r⟩ := G
+    simp only at m3 m4 ⊢
+    rcases r with e | (_ | (_ | _))
+    · exact ⟨m4 (by simp), rfl, m2⟩
+    · exact ⟨m4 (by simp), rfl, m2⟩
+    · exact ⟨m4 (by simp), rfl, m2⟩
+    · exact ⟨(hx _).1.trans m3, rfl, (hx _).2.trans m2⟩
 
 theorem dummyStep_abs {head exit : ArcObj → ArcObj} (hh : FlagOnly head) (hx : FlagOnly exit) (t0 high : Rat)
     (o : ArcObj) (used : List ATup) (n : Nat) :
@@ -247,36 +368,49 @@ theorem dummyStep_abs {head exit : ArcObj → ArcObj} (hh : FlagOnly head) (hx :
     (dummyStep head exit t0 high o used n).1.sol = o.sol := by
   have e0 := (hh o).1
   have s0 := (hh o).2
-  unfold dummyStep arcDummyStepI
-  simp only [e0]
+  unfold dummyStep
+  simp only
+  generalize head o = o0 at e0 s0 ⊢
+  rw [← e0, ← s0]
+  clear e0 s0
+  unfold arcDummyStepI
   split_ifs with h1
-  · exact ⟨e0, rfl, s0⟩
-  · generalize gstep .base o.inst.g _ = a
-    obtain ⟨g', r⟩ := a
+  · exact ⟨rfl, rfl, rfl⟩
+  · obtain ⟨m1, m2, m3, m4⟩ := mutate_addArc o0 (nameOf o0.inst.g 0) (nameOf o0.inst.g n) 0 high
+    generalize o0.mutate _ = a at m1 m2 m3 m4 ⊢
+    generalize gstep .base o0.inst.g _ = G at m1 m3 m4 ⊢
+    simp only
+    rw [m1]
+    clear m1
+    obtain ⟨g', r⟩ := G
+    simp only at m3 m4 ⊢
     rcases r with e | (_ | (_ | _))
-    · exact ⟨e0, rfl, s0⟩
-    · exact ⟨e0, rfl, s0⟩
-    · exact ⟨e0, rfl, s0⟩
+    · exact ⟨m4 (by simp), rfl, m2⟩
+    · exact ⟨m4 (by simp), rfl, m2⟩
+    · exact ⟨m4 (by simp), rfl, m2⟩
     · simp only
-      cases harr : ArcInst.arrival { g := g', T := o.inst.T } t0 0 n with
-      | none => exact ⟨rfl, rfl, s0⟩
+      rw [m3]
+      cases harr : ArcInst.arrival { g := g', T := o0.inst.T } t0 0 n with
+      | none => exact ⟨m3, rfl, m2⟩
       | some arr =>
         simp only
-        obtain ⟨x1, x2, x3⟩ := checkExit_abs hx
-          ({ head o with inst := { g := g', T := o.inst.T } } : ArcObj) n high
-        generalize checkAndAddExitArc exit _ n high = x at x1 x2 x3
-        simp only at x1 x2 x3
+        obtain ⟨x1, x2, x3⟩ := checkExit_abs hx a.1 n high
+        generalize checkAndAddExitArc exit a.1 n high = x at x1 x2 x3 ⊢
+        rw [m3] at x1 x2
         rw [x2, x1]
-        cases (arcExitI { g := g', T := o.inst.T } n high).2 with
-        | error e => exact ⟨x1, rfl, x3.trans s0⟩
+        cases (arcExitI { g := g', T := o0.inst.T } n high).2 with
+        | error e => exact ⟨x1, rfl, x3.trans m2⟩
         | ok u =>
           simp only
-          cases ArcInst.arrival (arcExitI { g := g', T := o.inst.T } n high).1 arr n 0 with
-          | none => exact ⟨x1, rfl, x3.trans s0⟩
-          | some arr2 => exact ⟨x1, rfl, x3.trans s0⟩
+          cases ArcInst.arrival (arcExitI { g := g', T := o0.inst.T } n high).1 arr n 0 with
+          | none => exact ⟨x1, rfl, x3.trans m2⟩
+          | some arr2 => exact ⟨x1, rfl, x3.trans m2⟩
 
 theorem flagOnly_resetAll : FlagOnly resetAll := fun _ => ⟨rfl, rfl⟩
 theorem flagOnly_id : FlagOnly id := fun _ => ⟨rfl, rfl⟩
+
+theorem harmless_resetAll : Harmless resetAll := ⟨flagOnly_resetAll, fun _ _ => Unset.coherent ⟨rfl, rfl, rfl⟩⟩
+theorem harmless_id : Harmless id := ⟨flagOnly_id, fun _ h => h⟩
 
 theorem dummyLoop_abs {head exit : ArcObj → ArcObj} (hh : FlagOnly head) (hx : FlagOnly exit) (t0 high : Rat)
     (o : ArcObj) (used : List ATup) (l : List Nat) :
@@ -298,51 +432,50 @@ theorem dummyLoop_abs {head exit : ArcObj → ArcObj} (hh : FlagOnly head) (hx :
       rw [← h1]
       exact ⟨i1, i2, i3.trans h3⟩
 
-/-- all three flags unset -/
-def Unset (o : ArcObj) : Prop :=
-  o.variablesEnumerated = false ∧ o.objectiveBuilt = false ∧ o.constraintsBuilt = false
-
-theorem Unset.coherent {o : ArcObj} (h : Unset o) : o.Coherent := coherent_of_flags h.1 h.2.1 h.2.2
-
-theorem checkExit_unset (o : ArcObj) (h : Unset o) (n : Nat) (cost : Rat) :
-    Unset (o.checkAndAddExitArc resetAll n cost).1 := by
+/-- since `add_arc` itself runs the hook, `check_and_add_exit_arc` keeps the object coherent whatever the explicit flag
+    action after the `assert` does, as long as that action is harmless -/
+theorem checkExit_coherent {exit : ArcObj → ArcObj} (hx : Harmless exit) (o : ArcObj) (hc : o.Coherent) (n : Nat)
+    (cost : Rat) : (o.checkAndAddExitArc exit n cost).1.Coherent := by
   unfold checkAndAddExitArc
   split_ifs
-  · exact h
+  · exact hc
   · simp only
     split
-    · exact ⟨rfl, rfl, rfl⟩
-    · exact h
+    · exact hx.coh _ (mutate_spec _ _).1.coherent
+    · exact (mutate_spec _ _).1.coherent
 
-/-- the real loop body leaves the three flags unset, whatever it does and whether or not it raises -/
-theorem dummyStep_unset (t0 high : Rat) (o : ArcObj) (used : List ATup) (n : Nat) :
-    Unset (dummyStep resetAll resetAll t0 high o used n).1 := by
-  have h0 : Unset (resetAll o) := ⟨rfl, rfl, rfl⟩
+/-- the loop body keeps the object coherent, whatever it does and whether or not it raises -/
+theorem dummyStep_coherent {head exit : ArcObj → ArcObj} (hh : Harmless head) (hx : Harmless exit) (t0 high : Rat)
+    (o : ArcObj) (hc : o.Coherent) (used : List ATup) (n : Nat) :
+    (dummyStep head exit t0 high o used n).1.Coherent := by
+  have h0 := hh.coh o hc
   unfold dummyStep
   simp only
   split_ifs
   · exact h0
-  · split
+  · have hm := (mutate_spec (head o)
+      (.op (.addArc (nameOf (head o).inst.g 0) (nameOf (head o).inst.g n) 0 high))).1.coherent
+    split
     · split
-      · exact h0
-      · have := checkExit_unset ({ resetAll o with inst := { (resetAll o).inst with g :=
-          (gstep .base (resetAll o).inst.g (.addArc (nameOf (resetAll o).inst.g 0) (nameOf (resetAll o).inst.g n) 0 high)).1 } }) h0 n high
+      · exact hm
+      · have := checkExit_coherent hx _ hm n high
         split
         · exact this
         · split
           · exact this
           · exact this
-    · exact h0
+    · exact hm
 
-theorem dummyLoop_coherent (t0 high : Rat) (o : ArcObj) (hc : o.Coherent) (used : List ATup) (l : List Nat) :
-    (dummyLoop resetAll resetAll t0 high o used l).1.Coherent := by
+theorem dummyLoop_coherent {head exit : ArcObj → ArcObj} (hh : Harmless head) (hx : Harmless exit) (t0 high : Rat)
+    (o : ArcObj) (hc : o.Coherent) (used : List ATup) (l : List Nat) :
+    (dummyLoop head exit t0 high o used l).1.Coherent := by
   induction l generalizing o used with
   | nil => exact hc
   | cons n rest ih =>
     unfold dummyLoop
     simp only
-    have hu := (dummyStep_unset t0 high o used n).coherent
-    cases hr : (dummyStep resetAll resetAll t0 high o used n).2 with
+    have hu := dummyStep_coherent hh hx t0 high o hc used n
+    cases hr : (dummyStep head exit t0 high o used n).2 with
     | error e => exact hu
     | ok used' => exact ih _ hu used'
 
@@ -387,15 +520,21 @@ theorem storeSolution_spec {o : ArcObj} (hc : o.Coherent) (used : List ATup) :
   | none => exact ⟨⟨hE.vars, hE.obj, hE.con⟩, rfl, rfl, rfl⟩
   | some idxs => exact ⟨⟨hE.vars, hE.obj, hE.con⟩, rfl, rfl, rfl⟩
 
-/-- the heuristic on a coherent object: coherent afterwards (also when it raises), the problem data are those of the
-    instance-level run, and the stored solution is updated as the instance-level outcome says -/
-theorem makeFeasible_spec {o : ArcObj} (hc : o.Coherent) (high : Rat) :
-    (o.makeFeasible high).1.Coherent ∧ (o.makeFeasible high).1.inst = (o.inst.heurP high).1 ∧
+/-- the heuristic on a coherent object, with ANY harmless flag actions at the two explicit reset sites: coherent
+    afterwards (also when it raises), the problem data are those of the instance-level run, and the stored solution is
+    updated as the instance-level outcome says.  (Every change of the problem data inside the heuristic goes through
+    the public `add_arc`, which runs the hook.) -/
+theorem makeFeasibleWith_spec {head exit : ArcObj → ArcObj} (hh : Harmless head) (hx : Harmless exit) {o : ArcObj}
+    (hc : o.Coherent) (high : Rat) :
+    (o.makeFeasibleWith head exit high).1.Coherent ∧
+    (o.makeFeasibleWith head exit high).1.inst = (o.inst.heurP high).1 ∧
     (match (o.inst.heurP high).2 with
-     | .ok sol => (o.makeFeasible high).1.sol = some sol ∧ (o.makeFeasible high).2 = .ok ()
-     | .lookupFailed => (o.makeFeasible high).1.sol = none ∧ (o.makeFeasible high).2 = .error .value
-     | .raised e => (o.makeFeasible high).1.sol = o.sol ∧ (o.makeFeasible high).2 = .error e) := by
-  unfold makeFeasible makeFeasibleWith ArcInst.heurP
+     | .ok sol => (o.makeFeasibleWith head exit high).1.sol = some sol ∧ (o.makeFeasibleWith head exit high).2 = .ok ()
+     | .lookupFailed =>
+        (o.makeFeasibleWith head exit high).1.sol = none ∧ (o.makeFeasibleWith head exit high).2 = .error .value
+     | .raised e =>
+        (o.makeFeasibleWith head exit high).1.sol = o.sol ∧ (o.makeFeasibleWith head exit high).2 = .error e) := by
+  unfold makeFeasibleWith ArcInst.heurP
   cases hg : o.inst.greedy with
   | error e => exact ⟨hc, rfl, rfl, rfl⟩
   | ok p =>
@@ -405,18 +544,27 @@ theorem makeFeasible_spec {o : ArcObj} (hc : o.Coherent) (high : Rat) :
     | none => exact ⟨hc, rfl, rfl, rfl⟩
     | some t0 =>
       simp only
-      obtain ⟨h1, h2, h3⟩ := dummyLoop_abs flagOnly_resetAll flagOnly_resetAll t0 high o used unv
-      have h4 := dummyLoop_coherent t0 high o hc used unv
+      obtain ⟨h1, h2, h3⟩ := dummyLoop_abs hh.flagOnly hx.flagOnly t0 high o used unv
+      have h4 := dummyLoop_coherent hh hx t0 high o hc used unv
       rw [← h2]
-      cases hr : (dummyLoop resetAll resetAll t0 high o used unv).2 with
+      cases hr : (dummyLoop head exit t0 high o used unv).2 with
       | error e => exact ⟨h4, h1, h3, rfl⟩
       | ok used1 =>
         simp only
         obtain ⟨k1, k2, k3⟩ := storeSolution_spec h4 used1
         rw [← h1]
-        cases hl : lookupAllI (dummyLoop resetAll resetAll t0 high o used unv).1.inst.varIndex used1 [] with
-        | none => rw [hl] at k3; exact ⟨k1, k2, k3⟩
+        cases hl : lookupAllI (dummyLoop head exit t0 high o used unv).1.inst.varIndex used1 [] with
+        | none => rw [hl] at k3; exact ⟨k1, k2.trans rfl, k3.1.trans rfl, k3.2⟩
         | some idxs => rw [hl] at k3; exact ⟨k1, k2, k3⟩
+
+/-- the heuristic of the code -/
+theorem makeFeasible_spec {o : ArcObj} (hc : o.Coherent) (high : Rat) :
+    (o.makeFeasible high).1.Coherent ∧ (o.makeFeasible high).1.inst = (o.inst.heurP high).1 ∧
+    (match (o.inst.heurP high).2 with
+     | .ok sol => (o.makeFeasible high).1.sol = some sol ∧ (o.makeFeasible high).2 = .ok ()
+     | .lookupFailed => (o.makeFeasible high).1.sol = none ∧ (o.makeFeasible high).2 = .error .value
+     | .raised e => (o.makeFeasible high).1.sol = o.sol ∧ (o.makeFeasible high).2 = .error e) :=
+  makeFeasibleWith_spec harmless_resetAll harmless_resetAll hc high
 
 end ArcObj
 
@@ -797,11 +945,88 @@ theorem getQubo_spec {o : SeqObj} (hc : o.Coherent) (feas : Bool) (rho? : Option
 
 def FlagOnly (f : SeqObj → SeqObj) : Prop := ∀ o, (f o).inst = o.inst ∧ (f o).sol = o.sol
 
+/-- a flag action that cannot break coherence (for instance: one that only clears flags) -/
+structure Harmless (f : SeqObj → SeqObj) : Prop where
+  flagOnly : FlagOnly f
+  coh : ∀ o, o.Coherent → (f o).Coherent
+
 theorem flagOnly_resetAll : FlagOnly resetAll := fun _ => ⟨rfl, rfl⟩
+theorem flagOnly_id : FlagOnly id := fun _ => ⟨rfl, rfl⟩
+theorem harmless_resetAll : Harmless resetAll := ⟨flagOnly_resetAll, fun _ _ => Unset.coherent ⟨rfl, rfl, rfl, rfl⟩⟩
+theorem harmless_id : Harmless id := ⟨flagOnly_id, fun _ h => h⟩
+
+/-! ### the hook and the mutators -/
+
+/-- a forwarded mutator: flags unset afterwards (also when it raises), the stored solution is kept, the problem data
+    are those of the graph-level call -/
+theorem mutate_spec (o : SeqObj) (m : GMut) :
+    Unset (o.mutate m).1 ∧ (o.mutate m).1.sol = o.sol ∧
+    (o.mutate m).1.inst = { o.inst with g := (gmut (.seq o.inst.strict) o.inst.g m).1 } ∧
+    (o.mutate m).2 = (gmut (.seq o.inst.strict) o.inst.g m).2 :=
+  ⟨⟨rfl, rfl, rfl, rfl⟩, rfl, rfl, rfl⟩
+
+/-- a mutator that raises has reset the flags and left the problem data and the stored solution alone -/
+theorem mutate_raised (o : SeqObj) (m : GMut) (e : Err) (h : (o.mutate m).2 = .error e) :
+    Unset (o.mutate m).1 ∧ (o.mutate m).1.inst = o.inst ∧ (o.mutate m).1.sol = o.sol := by
+  refine ⟨⟨rfl, rfl, rfl, rfl⟩, ?_, rfl⟩
+  show ({ o.inst with g := (gmut (.seq o.inst.strict) o.inst.g m).1 } : SeqInst) = o.inst
+  rw [gmut_error_fst (.seq o.inst.strict) o.inst.g m e h]
+
+theorem setMaxVehicles_spec (o : SeqObj) (v : Nat) :
+    Unset (o.setMaxVehicles v) ∧ (o.setMaxVehicles v).sol = o.sol ∧
+    (o.setMaxVehicles v).inst = o.inst.setMaxVehicles v :=
+  ⟨⟨rfl, rfl, rfl, rfl⟩, rfl, rfl⟩
+
+theorem setMaxSeqLen_spec (o : SeqObj) (l : Nat) :
+    Unset (o.setMaxSeqLen l) ∧ (o.setMaxSeqLen l).sol = o.sol ∧ (o.setMaxSeqLen l).inst = o.inst.setMaxSeqLen l :=
+  ⟨⟨rfl, rfl, rfl, rfl⟩, rfl, rfl⟩
+
+/-- `self.add_arc(...)` inside the heuristic: the flags are unset afterwards whether or not the arc is accepted -/
+theorem addArcIdx_spec (o : SeqObj) (i j : Nat) (t c : Rat) :
+    Unset (o.addArcIdx i j t c).1 ∧ (o.addArcIdx i j t c).1.sol = o.sol ∧
+    (match addArcOrFail (.seq o.inst.strict) o.inst.g i j t c with
+     | none => (o.addArcIdx i j t c).2 = false ∧ (o.addArcIdx i j t c).1.inst = o.inst
+     | some g' => (o.addArcIdx i j t c).2 = true ∧ (o.addArcIdx i j t c).1.inst = { o.inst with g := g' }) := by
+  have hk := gstep_addArc_fst (.seq o.inst.strict) o.inst.g (nameOf o.inst.g i) (nameOf o.inst.g j) t c
+  have e1 : (o.mutate (.op (.addArc (nameOf o.inst.g i) (nameOf o.inst.g j) t c))).2
+      = (gstep (.seq o.inst.strict) o.inst.g (.addArc (nameOf o.inst.g i) (nameOf o.inst.g j) t c)).2 := rfl
+  have e2 : (o.mutate (.op (.addArc (nameOf o.inst.g i) (nameOf o.inst.g j) t c))).1.sol = o.sol := rfl
+  have e3 : (o.mutate (.op (.addArc (nameOf o.inst.g i) (nameOf o.inst.g j) t c))).1.inst
+      = { o.inst with g := (gstep (.seq o.inst.strict) o.inst.g
+            (.addArc (nameOf o.inst.g i) (nameOf o.inst.g j) t c)).1 } := rfl
+  have eu : Unset (o.mutate (.op (.addArc (nameOf o.inst.g i) (nameOf o.inst.g j) t c))).1 := ⟨rfl, rfl, rfl, rfl⟩
+  unfold addArcIdx addArcOrFail
+  simp only
+  generalize o.mutate _ = a at e1 e2 e3 eu ⊢
+  rw [e1]
+  clear e1
+  generalize gstep (.seq o.inst.strict) o.inst.g _ = G at hk e3 ⊢
+  obtain ⟨g', r⟩ := G
+  simp only at hk e3 ⊢
+  rcases r with e | (_ | (_ | _))
+  · exact ⟨eu, e2, rfl, by rw [e3, hk (by simp)]⟩
+  · exact ⟨eu, e2, rfl, by rw [e3, hk (by simp)]⟩
+  · exact ⟨eu, e2, rfl, by rw [e3, hk (by simp)]⟩
+  · exact ⟨eu, e2, rfl, e3⟩
+
+/-- `if not check_arc: if not add_arc: raise` of the dummy-vehicle loop -/
+theorem ensureArc_spec (o : SeqObj) (i j : Nat) (t c : Rat) :
+    (o.ensureArc i j t c).1.sol = o.sol ∧ (Unset o → Unset (o.ensureArc i j t c).1) ∧
+    (match (if o.inst.g.hasArc i j then some o.inst.g else addArcOrFail (.seq o.inst.strict) o.inst.g i j t c) with
+     | none => (o.ensureArc i j t c).2 = false ∧ (o.ensureArc i j t c).1.inst = o.inst
+     | some g' => (o.ensureArc i j t c).2 = true ∧ (o.ensureArc i j t c).1.inst = { o.inst with g := g' }) := by
+  unfold ensureArc
+  by_cases h : o.inst.g.hasArc i j = true
+  · rw [if_pos h, if_pos h]
+    exact ⟨rfl, fun hu => hu, rfl, rfl⟩
+  · rw [if_neg h, if_neg h]
+    obtain ⟨u1, u2, u3⟩ := addArcIdx_spec o i j t c
+    exact ⟨u2, fun _ => u1, u3⟩
 
 theorem ensureExitArc_abs {exit : SeqObj → SeqObj} (hx : FlagOnly exit) (o : SeqObj) (cur : Nat) :
     match ensureExit (.seq o.inst.strict) o.inst.g cur with
-    | none => o.ensureExitArc exit cur = (o, .error .value)
+    | none => (o.ensureExitArc exit cur).2 = .error .value ∧
+        (o.ensureExitArc exit cur).1.inst = o.inst ∧ (o.ensureExitArc exit cur).1.sol = o.sol
     | some g' => (o.ensureExitArc exit cur).2 = .ok () ∧
         (o.ensureExitArc exit cur).1.inst = { o.inst with g := g' } ∧ (o.ensureExitArc exit cur).1.sol = o.sol := by
   unfold ensureExitArc ensureExit
@@ -809,23 +1034,38 @@ theorem ensureExitArc_abs {exit : SeqObj → SeqObj} (hx : FlagOnly exit) (o : S
   · rw [if_pos h, if_pos h]
     exact ⟨rfl, rfl, rfl⟩
   · rw [if_neg h, if_neg h]
+    obtain ⟨_, u2, u3⟩ := addArcIdx_spec o cur 0 0 0
+    generalize o.addArcIdx cur 0 0 0 = a at u2 u3 ⊢
+    revert u3
     cases addArcOrFail (Flavor.seq o.inst.strict) o.inst.g cur 0 0 0 with
-    | none => rfl
-    | some g' => exact ⟨rfl, (hx _).1, (hx _).2⟩
+    | none =>
+      intro u3
+      simp only at u3 ⊢
+      simp only [u3.1, Bool.false_eq_true, if_false]
+      exact ⟨trivial, u3.2, u2⟩
+    | some g' =>
+      intro u3
+      simp only at u3 ⊢
+      simp only [u3.1, if_true]
+      exact ⟨trivial, (hx _).1.trans u3.2, (hx _).2.trans u2⟩
 
-theorem ensureExitArc_coherent (o : SeqObj) (hc : o.Coherent) (cur : Nat) :
-    (o.ensureExitArc resetAll cur).1.Coherent := by
+/-- since `add_arc` itself runs the hook, `_ensure_exit_arc` keeps the object coherent whatever the explicit flag
+    action after it does, as long as that action is harmless -/
+theorem ensureExitArc_coherent {exit : SeqObj → SeqObj} (hx : Harmless exit) (o : SeqObj) (hc : o.Coherent)
+    (cur : Nat) : (o.ensureExitArc exit cur).1.Coherent := by
   unfold ensureExitArc
+  simp only
   split_ifs
   · exact hc
-  · split
-    · exact hc
-    · exact Unset.coherent ⟨rfl, rfl, rfl, rfl⟩
+  · exact hx.coh _ (addArcIdx_spec o cur 0 0 0).1.coherent
+  · exact (addArcIdx_spec o cur 0 0 0).1.coherent
 
 theorem fill_abs {exit : SeqObj → SeqObj} (hx : FlagOnly exit) (L v : Nat) (k p cur : Nat) (o : SeqObj)
     (unv : List Nat) (used : List STup) :
     match seqFill (.seq o.inst.strict) L v k p cur o.inst.g unv used with
-    | none => SeqObj.fill exit v k p cur o unv used = (o, .error .value)
+    | none => (SeqObj.fill exit v k p cur o unv used).2 = .error .value ∧
+        (SeqObj.fill exit v k p cur o unv used).1.inst = o.inst ∧
+        (SeqObj.fill exit v k p cur o unv used).1.sol = o.sol
     | some st => (SeqObj.fill exit v k p cur o unv used).2 = .ok (st.2.1, st.2.2) ∧
         (SeqObj.fill exit v k p cur o unv used).1.inst = { o.inst with g := st.1 } ∧
         (SeqObj.fill exit v k p cur o unv used).1.sol = o.sol := by
@@ -836,7 +1076,8 @@ theorem fill_abs {exit : SeqObj → SeqObj} (hx : FlagOnly exit) (L v : Nat) (k 
     cases he : ensureExit (Flavor.seq o.inst.strict) o.inst.g cur with
     | none =>
       rw [he] at h
-      simp only [h, Option.map_none]
+      simp only [h.1, Option.map_none]
+      exact ⟨trivial, h.2.1, h.2.2⟩
     | some g' =>
       rw [he] at h
       simp only [h.1, Option.map_some]
@@ -851,18 +1092,20 @@ theorem fill_abs {exit : SeqObj → SeqObj} (hx : FlagOnly exit) (L v : Nat) (k 
       cases he : ensureExit (Flavor.seq o.inst.strict) o.inst.g cur with
       | none =>
         rw [he] at h
-        simp only [h, Option.map_none]
+        simp only [h.1, Option.map_none]
+        exact ⟨trivial, h.2.1, h.2.2⟩
       | some g' =>
         rw [he] at h
         simp only [h.1, Option.map_some]
         exact ⟨trivial, h.2.1, h.2.2⟩
 
-theorem fill_coherent (v : Nat) (k p cur : Nat) (o : SeqObj) (hc : o.Coherent) (unv : List Nat) (used : List STup) :
-    (SeqObj.fill resetAll v k p cur o unv used).1.Coherent := by
+theorem fill_coherent {exit : SeqObj → SeqObj} (hx : Harmless exit) (v : Nat) (k p cur : Nat) (o : SeqObj)
+    (hc : o.Coherent) (unv : List Nat) (used : List STup) :
+    (SeqObj.fill exit v k p cur o unv used).1.Coherent := by
   induction k generalizing p cur unv used with
   | zero =>
     unfold SeqObj.fill
-    have := ensureExitArc_coherent o hc cur
+    have := ensureExitArc_coherent hx o hc cur
     simp only
     split
     · exact this
@@ -871,7 +1114,7 @@ theorem fill_coherent (v : Nat) (k p cur : Nat) (o : SeqObj) (hc : o.Coherent) (
     unfold SeqObj.fill
     split
     · exact ih _ _ _ _
-    · have := ensureExitArc_coherent o hc cur
+    · have := ensureExitArc_coherent hx o hc cur
       simp only
       split
       · exact this
@@ -894,8 +1137,8 @@ theorem vehLoop_abs {exit : SeqObj → SeqObj} (hx : FlagOnly exit) (vs : List N
     cases hs : seqFill (Flavor.seq o.inst.strict) o.inst.L v (o.inst.L - 2) 1 0 o.inst.g unv used with
     | none =>
       rw [hs] at h
-      simp only [h]
-      exact ⟨trivial, trivial, trivial⟩
+      simp only [h.1]
+      exact ⟨h.2.1, h.2.2, trivial⟩
     | some st =>
       rw [hs] at h
       obtain ⟨h1, h2, h3⟩ := h
@@ -904,13 +1147,14 @@ theorem vehLoop_abs {exit : SeqObj → SeqObj} (hx : FlagOnly exit) (vs : List N
       rw [h2] at i1 i3
       exact ⟨i1, i2.trans h3, i3⟩
 
-theorem vehLoop_coherent (vs : List Nat) (o : SeqObj) (hc : o.Coherent) (unv : List Nat) (used : List STup) :
-    (SeqObj.vehLoop resetAll vs o unv used).1.Coherent := by
+theorem vehLoop_coherent {exit : SeqObj → SeqObj} (hx : Harmless exit) (vs : List Nat) (o : SeqObj)
+    (hc : o.Coherent) (unv : List Nat) (used : List STup) :
+    (SeqObj.vehLoop exit vs o unv used).1.Coherent := by
   induction vs generalizing o unv used with
   | nil => exact hc
   | cons v vs ih =>
     unfold SeqObj.vehLoop
-    have := fill_coherent v (o.inst.L - 2) 1 0 o hc unv used
+    have := fill_coherent hx v (o.inst.L - 2) 1 0 o hc unv used
     simp only
     split
     · exact this
@@ -925,30 +1169,52 @@ theorem dummyStep_abs {head : SeqObj → SeqObj} (hh : FlagOnly head) (high : Ra
     (dummyStep head high o used ni).1.sol = o.sol := by
   have e0 := (hh o).1
   have s0 := (hh o).2
-  unfold dummyStep seqDummyStepI
-  simp only [e0]
-  generalize (if o.inst.g.hasArc 0 ni = true then some o.inst.g
-    else addArcOrFail (Flavor.seq o.inst.strict) o.inst.g 0 ni 0 high) = x1
+  unfold dummyStep
+  simp only
+  generalize head o = o0 at e0 s0 ⊢
+  rw [← e0, ← s0]
+  clear e0 s0
+  unfold seqDummyStepI
+  simp only
+  obtain ⟨a1, _, a3⟩ := ensureArc_spec
+    ({ o0 with inst := { o0.inst with V := o0.inst.V + 1, vcost := o0.inst.vcost ++ [high] } } : SeqObj) 0 ni 0 high
+  generalize ensureArc _ 0 ni 0 high = e at a1 a3 ⊢
+  simp only at a1 a3
+  generalize (if o0.inst.g.hasArc 0 ni = true then some o0.inst.g
+    else addArcOrFail (Flavor.seq o0.inst.strict) o0.inst.g 0 ni 0 high) = x1 at a3 ⊢
   cases x1 with
-  | none => exact ⟨rfl, rfl, s0⟩
+  | none =>
+    simp only at a3 ⊢
+    simp only [a3.1, Bool.false_eq_true, if_false]
+    exact ⟨a3.2, trivial, a1⟩
   | some g1 =>
-    simp only
+    simp only at a3 ⊢
+    simp only [a3.1, if_true]
+    obtain ⟨b1, _, b3⟩ := ensureArc_spec e.1 ni 0 0 high
+    rw [a3.2] at b3
+    simp only at b3
+    generalize ensureArc e.1 ni 0 0 high = x at b1 b3 ⊢
     generalize (if g1.hasArc ni 0 = true then some g1
-      else addArcOrFail (Flavor.seq o.inst.strict) g1 ni 0 0 high) = x2
+      else addArcOrFail (Flavor.seq o0.inst.strict) g1 ni 0 0 high) = x2 at b3 ⊢
     cases x2 with
-    | none => exact ⟨rfl, rfl, s0⟩
-    | some g2 => exact ⟨rfl, rfl, s0⟩
+    | none =>
+      simp only at b3 ⊢
+      simp only [b3.1, Bool.false_eq_true, if_false]
+      exact ⟨b3.2, trivial, b1.trans a1⟩
+    | some g2 =>
+      simp only at b3 ⊢
+      simp only [b3.1, if_true, b3.2]
+      exact ⟨trivial, trivial, b1.trans a1⟩
 
 /-- the real loop body leaves the four flags unset, whatever it does and whether or not it raises -/
 theorem dummyStep_unset (high : Rat) (o : SeqObj) (used : List STup) (ni : Nat) :
     Unset (dummyStep resetAll high o used ni).1 := by
   unfold dummyStep
   simp only
-  split
-  · exact ⟨rfl, rfl, rfl, rfl⟩
-  · split
-    · exact ⟨rfl, rfl, rfl, rfl⟩
-    · exact ⟨rfl, rfl, rfl, rfl⟩
+  split_ifs
+  · exact (ensureArc_spec _ ni 0 0 high).2.1 ((ensureArc_spec _ 0 ni 0 high).2.1 ⟨rfl, rfl, rfl, rfl⟩)
+  · exact (ensureArc_spec _ ni 0 0 high).2.1 ((ensureArc_spec _ 0 ni 0 high).2.1 ⟨rfl, rfl, rfl, rfl⟩)
+  · exact (ensureArc_spec _ 0 ni 0 high).2.1 ⟨rfl, rfl, rfl, rfl⟩
 
 theorem dummyLoop_abs {head : SeqObj → SeqObj} (hh : FlagOnly head) (high : Rat) (o : SeqObj) (used : List STup)
     (l : List Nat) :
@@ -1025,25 +1291,34 @@ theorem storeSolution_spec {o : SeqObj} (hc : o.Coherent) (used : List STup) :
   | none => exact ⟨⟨hE.vars, hE.obj, hE.lin, hE.quad⟩, rfl, rfl, rfl⟩
   | some idxs => exact ⟨⟨hE.vars, hE.obj, hE.lin, hE.quad⟩, rfl, rfl, rfl⟩
 
-/-- the heuristic on a coherent object: coherent afterwards (also when it raises), the problem data are those of the
-    instance-level run, and the stored solution is updated as the instance-level outcome says -/
-theorem makeFeasible_spec {o : SeqObj} (hc : o.Coherent) (high : Rat) :
-    (o.makeFeasible high).1.Coherent ∧ (o.makeFeasible high).1.inst = (o.inst.heurP high).1 ∧
+/-- the heuristic on a coherent object, with the loop-head reset of the code and ANY harmless flag action at the
+    explicit reset site of `_ensure_exit_arc`: coherent afterwards (also when it raises), the problem data are those of
+    the instance-level run, and the stored solution is updated as the instance-level outcome says.  (The loop-head
+    reset cannot be dropped: `max_vehicles` / `vehicle_cost` are written directly there and no `add_arc` need follow.) -/
+theorem makeFeasibleWith_spec {exit : SeqObj → SeqObj} (hx : Harmless exit) {o : SeqObj} (hc : o.Coherent)
+    (high : Rat) :
+    (o.makeFeasibleWith resetAll exit high).1.Coherent ∧
+    (o.makeFeasibleWith resetAll exit high).1.inst = (o.inst.heurP high).1 ∧
     (match (o.inst.heurP high).2 with
-     | .ok sol => (o.makeFeasible high).1.sol = some sol ∧ (o.makeFeasible high).2 = .ok ()
-     | .lookupFailed => (o.makeFeasible high).1.sol = none ∧ (o.makeFeasible high).2 = .error .value
-     | .raised e => (o.makeFeasible high).1.sol = o.sol ∧ (o.makeFeasible high).2 = .error e) := by
-  unfold makeFeasible makeFeasibleWith SeqInst.heurP
+     | .ok sol =>
+        (o.makeFeasibleWith resetAll exit high).1.sol = some sol ∧ (o.makeFeasibleWith resetAll exit high).2 = .ok ()
+     | .lookupFailed =>
+        (o.makeFeasibleWith resetAll exit high).1.sol = none ∧
+          (o.makeFeasibleWith resetAll exit high).2 = .error .value
+     | .raised e =>
+        (o.makeFeasibleWith resetAll exit high).1.sol = o.sol ∧
+          (o.makeFeasibleWith resetAll exit high).2 = .error e) := by
+  unfold makeFeasibleWith SeqInst.heurP
   simp only
   generalize sortByHi o.inst.g _ = unv0
-  obtain ⟨v1, v2, v3⟩ := vehLoop_abs flagOnly_resetAll (List.range o.inst.V) o unv0 []
-  have v4 := vehLoop_coherent (List.range o.inst.V) o hc unv0 []
+  obtain ⟨v1, v2, v3⟩ := vehLoop_abs hx.flagOnly (List.range o.inst.V) o unv0 []
+  have v4 := vehLoop_coherent hx (List.range o.inst.V) o hc unv0 []
   rw [v3]
   cases hr : (seqVehLoopI (Flavor.seq o.inst.strict) o.inst.L (List.range o.inst.V) o.inst.g unv0 []).2 with
   | none => exact ⟨v4, v1, v2, rfl⟩
   | some p =>
     simp only
-    obtain ⟨d1, d2, d3⟩ := dummyLoop_abs flagOnly_resetAll high (vehLoop resetAll (List.range o.inst.V) o unv0 []).1 p.2 p.1
+    obtain ⟨d1, d2, d3⟩ := dummyLoop_abs flagOnly_resetAll high (vehLoop exit (List.range o.inst.V) o unv0 []).1 p.2 p.1
     have d4 := dummyLoop_coherent high _ v4 p.2 p.1
     rw [v1] at d1 d2
     rw [d2]
@@ -1058,6 +1333,15 @@ theorem makeFeasible_spec {o : SeqObj} (hc : o.Coherent) (high : Rat) :
         (List.range o.inst.V) o.inst.g unv0 []).1 } p.2 p.1).1.varIndex used [] with
       | none => rw [hl] at k3; exact ⟨k1, k2, k3⟩
       | some idxs => rw [hl] at k3; exact ⟨k1, k2, k3⟩
+
+/-- the heuristic of the code -/
+theorem makeFeasible_spec {o : SeqObj} (hc : o.Coherent) (high : Rat) :
+    (o.makeFeasible high).1.Coherent ∧ (o.makeFeasible high).1.inst = (o.inst.heurP high).1 ∧
+    (match (o.inst.heurP high).2 with
+     | .ok sol => (o.makeFeasible high).1.sol = some sol ∧ (o.makeFeasible high).2 = .ok ()
+     | .lookupFailed => (o.makeFeasible high).1.sol = none ∧ (o.makeFeasible high).2 = .error .value
+     | .raised e => (o.makeFeasible high).1.sol = o.sol ∧ (o.makeFeasible high).2 = .error e) :=
+  makeFeasibleWith_spec harmless_resetAll hc high
 
 end SeqObj
 
